@@ -12,8 +12,10 @@
          complete finite check by computation); each class names a lemma, and all lemmas are theorems
          ([c02_all_lemmas_hold]); the loops with simple bodies are mirrored in Model/Determinism.v and
          proved order-free outright; two sites are order-DEPENDENT and proved so
-         ([c02_ontfs_errors_event_refuted] -- new finding of this check; [c02_cycle_detector_refuted] -- F4,
-         owned by C15).
+         ([c02_commit_dpos_black_events_refuted] -- new finding of this check; [c02_cycle_detector_refuted] -- F4,
+         owned by C15); a third one, the ontfs error event, was found by this check, repaired in /repo 859ea035
+         and is now proved order-free ([c02_ontfs_errors_event_order_free]).  Process-global state written
+         during execution is tabled the same way ([c02_all_process_globals_classified], [c02_gas_table_refuted]).
       B. node roles: block execution (fold of handleTransaction over one overlay; state hash = H over the
          sorted write set; root = state merkle tree with that leaf appended) is the same function on a
          consensus member and on a syncing/restarted node, except for the signer list.  Members agree with
@@ -152,19 +154,21 @@ Print Assumptions c02_ont_init_singleton.
 
 (** A5. The two order-dependent sites. *)
 
-(** KNOWN FINDING (new, class maporder:ontfs-errors-event): the payload of the event pushed by ontfs
-    Errors.AddErrorsEvent is written in map order -- two nodes (two runs) emit different events for the
-    same transaction as soon as two objects failed. *)
-Theorem c02_ontfs_errors_event_refuted :
-  exists o1 o2 : list (bytes * bytes), NoDup (map fst o1) /\ Permutation o1 o2 /\
-    ontfs_errors_to_string o1 <> ontfs_errors_to_string o2.
-Proof. exact ontfs_errors_to_string_order_dependent. Qed.
-Print Assumptions c02_ontfs_errors_event_refuted.
+(** ontfs Errors.ToString (the payload of the event pushed by AddErrorsEvent), as repaired in /repo
+    859ea035 (keys collected, sort.Strings, entries written in key order): the same payload for EVERY
+    visiting order of every map.  (Found by this check as finding maporder:ontfs-errors-event; the driver
+    keeps the 40-executions probe as a regression test.) *)
+Theorem c02_ontfs_errors_event_order_free : forall o1 o2 : list (bytes * bytes),
+  Permutation o1 o2 -> NoDup (map fst o1) -> ontfs_errors_to_string o1 = ontfs_errors_to_string o2.
+Proof. exact ontfs_errors_to_string_order_free. Qed.
+Print Assumptions c02_ontfs_errors_event_order_free.
 
-Theorem c02_ontfs_errors_event_partial : forall o1 o2,
-  Permutation o1 o2 -> (List.length o1 <= 1)%nat -> ontfs_errors_to_string o1 = ontfs_errors_to_string o2.
-Proof. exact ontfs_errors_to_string_small. Qed.
-Print Assumptions c02_ontfs_errors_event_partial.
+(** ... and the sort is what makes it so: the writer before the repair followed the map order *)
+Theorem c02_ontfs_errors_event_unsorted_refuted :
+  exists o1 o2 : list (bytes * bytes), NoDup (map fst o1) /\ Permutation o1 o2 /\
+    ontfs_errors_to_string_unsorted o1 <> ontfs_errors_to_string_unsorted o2.
+Proof. exact ontfs_errors_to_string_unsorted_order_dependent. Qed.
+Print Assumptions c02_ontfs_errors_event_unsorted_refuted.
 
 (** KNOWN FINDING (F4, owned by C15; class maporder:cycle-detector-first-entry): the map branch of
     circularRefAndDepthDetection returns after the first visited entry. *)
@@ -208,7 +212,7 @@ Print Assumptions c02_commit_dpos_black_events_partial.
 Theorem c02_finding_classes :
   finding_classes classification =
   ["maporder:governance-blackquit-events"; "maporder:governance-blackquit-events";
-   "maporder:ontfs-errors-event"; "maporder:cycle-detector-first-entry"]%string.
+   "maporder:cycle-detector-first-entry"]%string.
 Proof. exact finding_classes_are. Qed.
 Print Assumptions c02_finding_classes.
 
